@@ -479,10 +479,25 @@ def check_filters(ctx, real, d, path, text, rng, nsets, label):
     m_full = d.call("c09.loadPdb" if fmt == "pdb" else "c09.loadCif", text=text)
     elems = sorted({a["elem"] for a in full})
     ress = sorted({a["resName"] for a in full})
+    def near(names):
+        """names that are *not* in the file but close to one that is: longer (a present name is a prefix: 'C' -> 'CA',
+        'G' -> 'GLY'), shorter (a prefix of a present name), other case"""
+        out = set()
+        for n in names:
+            if not n:
+                continue
+            out.update({n + "A", n + "L", n + n[-1], n.lower(), n[:-1]})
+            out.update({n + "LY", n + "LA"} if len(n) == 1 else set())
+        return sorted(x for x in out if x and x not in names and x.strip() == x)
+    near_e, near_r = near(elems), near(ress)
     for j in range(nsets):
         keep = bool(rng.random() < 0.5)
-        es = set() if rng.random() < 0.3 else set(str(x) for x in rng.choice(elems + ["XX"], size=int(rng.integers(1, 3))))
-        rs = set() if rng.random() < 0.3 else set(str(x) for x in rng.choice(ress + ["ZZZ"], size=int(rng.integers(1, 4))))
+        es = set() if rng.random() < 0.3 else set(str(x) for x in rng.choice(elems + ["XX"] + near_e, size=int(rng.integers(1, 3))))
+        rs = set() if rng.random() < 0.3 else set(str(x) for x in rng.choice(ress + ["ZZZ"] + near_r, size=int(rng.integers(1, 4))))
+        if j == 1 and near_e:
+            es, rs = {near_e[int(rng.integers(len(near_e)))]}, set()
+        if j == 2 and near_r:
+            es, rs = set(), {near_r[int(rng.integers(len(near_r)))], ress[int(rng.integers(len(ress)))]}
         if j == 0:
             keep, es, rs = False, set(), set()
         inp = {"file": os.path.basename(path) if label == "bundled" else text, "keep_non_atom_records": keep,
